@@ -857,9 +857,11 @@ async def overlap_scenario(loop, steps, seed):
             if any(o["kind"] == "sub" for o in pending) or any(h[2] for h in held if h[0].t is t):
                 cut_seen = True
                 stats["calls-cut"] += 1
-            elif asked_t is not None and must_be_subscribed(ops) - asked_t:
-                # this session has not yet been asked for everything the callers are subscribed to: the re-subscription that follows its pair-verify is still
-                # on its way (its next request waits behind another request of the library, so the accessory has not seen it) - the disconnection cuts it off
+            elif asked_t is not None and (must_be_subscribed(ops) | must_be_subscribed([o for o in ops if not (o["kind"] == "unsub" and o["done"] is None)])) - asked_t:
+                # this session has not yet been asked for everything the library still holds as subscribed (an unsubscribe that has not returned has
+                # not taken effect yet): the re-subscription that follows its pair-verify is still on its way (its next request waits behind another
+                # request of the library, or it is between the requests of two accessory ids, so the accessory has not seen it) - the disconnection
+                # cuts it off
                 cut_seen = True
                 stats["resubscriptions-cut"] += 1
             held[:] = [h for h in held if h[0].t is not t]
